@@ -47,6 +47,383 @@ _KNOWN = None
 _FETCHED = []
 
 
+def _split_parallel_assignments(tree):
+    """Source normal form: ``a, b = x, y`` (displays of equal length, no
+    starred part) reads ``a = x`` followed by ``b = y`` when no later value
+    can see an earlier target: the targets are plain names or attributes,
+    and no later value mentions a name / an attribute name that an earlier
+    target stores."""
+    for holder in list(ast.walk(tree)):
+        for field in ("body", "orelse", "finalbody"):
+            body = getattr(holder, field, None)
+            if not (isinstance(body, list) and body and
+                    isinstance(body[0], ast.stmt)):
+                continue
+            i = 0
+            while i < len(body):
+                st = body[i]
+                i += 1
+                if not (isinstance(st, ast.Assign) and
+                        len(st.targets) == 1 and
+                        isinstance(st.targets[0], (ast.Tuple, ast.List)) and
+                        isinstance(st.value, (ast.Tuple, ast.List)) and
+                        len(st.targets[0].elts) == len(st.value.elts) >= 2):
+                    continue
+                tg, vs = st.targets[0].elts, st.value.elts
+                if not all(isinstance(t, (ast.Name, ast.Attribute))
+                           for t in tg) or any(
+                               isinstance(v, ast.Starred) for v in vs):
+                    continue
+                ok = True
+                stored_names, stored_attrs = set(), set()
+                for t, v in zip(tg, vs):
+                    for x in ast.walk(v):
+                        if isinstance(x, ast.Name) and x.id in stored_names:
+                            ok = False
+                        elif isinstance(x, ast.Attribute) and \
+                                x.attr in stored_attrs:
+                            ok = False
+                        elif isinstance(x, (ast.Call, ast.NamedExpr,
+                                            ast.Yield, ast.Await)) and \
+                                (stored_names or stored_attrs):
+                            ok = False      # a call may read what was stored
+                    if isinstance(t, ast.Name):
+                        stored_names.add(t.id)
+                    else:
+                        stored_attrs.add(t.attr)
+                        # (the object whose attribute is stored must not be
+                        # re-bound by an earlier target)
+                        for x in ast.walk(t.value):
+                            if isinstance(x, ast.Name) and \
+                                    x.id in stored_names:
+                                ok = False
+                if not ok:
+                    continue
+                new = []
+                for t, v in zip(tg, vs):
+                    a = ast.Assign(targets=[t], value=v)
+                    ast.copy_location(a, st)
+                    new.append(a)
+                body[i - 1:i] = new
+                i += len(new) - 1
+
+
+_DICT_N = [0]
+
+
+def _hoist_walrus(tree):
+    """Source normal form: ``if (n := f(x)) > k:`` reads ``n = f(x)`` followed
+    by ``if n > k:`` - for an assignment expression that is evaluated
+    whenever the statement is (not under the right operand of and / or, a
+    conditional expression's branch, a comprehension, a lambda or a loop
+    test) and before which the statement evaluates nothing but names,
+    constants and attribute chains."""
+    def simple(e):
+        return isinstance(e, (ast.Name, ast.Constant)) or (
+            isinstance(e, ast.Attribute) and simple(e.value))
+
+    def find(e, before_ok):
+        """The first NamedExpr evaluated unconditionally in e, or None;
+        before_ok: everything evaluated so far was simple."""
+        # returns (namedexpr or None, still_ok)
+        if isinstance(e, ast.NamedExpr):
+            inner, ok = find(e.value, before_ok)
+            if inner is not None:
+                return inner, ok
+            return (e if before_ok else None), False
+        if isinstance(e, ast.Dict) and e.keys and e.keys[0] is None and \
+                all(k is None or isinstance(k, ast.Constant)
+                    for k in e.keys):
+            # {**a, **b, 'k': v}: a dictionary made afresh from a, updated
+            # with b, then given entry 'k'
+            ok_ = before_ok
+            for v_ in e.values:
+                inner, ok_ = find(v_, ok_)
+                if inner is not None:
+                    return inner, ok_
+            # (what the display itself evaluates moves with it, in order)
+            return (e if before_ok else None), False
+        if isinstance(e, (ast.Lambda, ast.ListComp, ast.SetComp,
+                          ast.DictComp, ast.GeneratorExp, ast.IfExp)):
+            if isinstance(e, ast.IfExp):
+                return find(e.test, before_ok)[0], False
+            return None, False
+        if isinstance(e, ast.BoolOp):
+            got, ok = find(e.values[0], before_ok)
+            return got, False
+        if simple(e):
+            return None, before_ok
+        ok = before_ok
+        for ch in ast.iter_child_nodes(e):
+            if isinstance(ch, (ast.expr_context, ast.operator, ast.cmpop,
+                               ast.unaryop, ast.boolop)):
+                continue
+            if isinstance(ch, ast.keyword):
+                ch = ch.value
+            if not isinstance(ch, ast.expr):
+                continue
+            got, ok = find(ch, ok)
+            if got is not None:
+                return got, ok
+            if not ok:
+                return None, False
+        # e itself is a call / operation: evaluated after its children
+        return None, False if isinstance(e, (ast.Call, ast.Subscript,
+                                             ast.BinOp, ast.Compare,
+                                             ast.UnaryOp)) and False \
+            else ok and not isinstance(e, ast.Call)
+
+    def replace(root, target, new):
+        for node in ast.walk(root):
+            for field, val in ast.iter_fields(node):
+                if val is target:
+                    setattr(node, field, new)
+                    return True
+                if isinstance(val, list):
+                    for i, x in enumerate(val):
+                        if x is target:
+                            val[i] = new
+                            return True
+        return False
+
+    for holder in list(ast.walk(tree)):
+        for field in ("body", "orelse", "finalbody"):
+            body = getattr(holder, field, None)
+            if not (isinstance(body, list) and body and
+                    isinstance(body[0], ast.stmt)):
+                continue
+            i = 0
+            guard = 0
+            while i < len(body) and guard < 200:
+                guard += 1
+                st = body[i]
+                if isinstance(st, ast.If):
+                    exprs = [("test", st.test)]
+                elif isinstance(st, (ast.Assign, ast.AugAssign, ast.Return,
+                                     ast.Expr, ast.AnnAssign)):
+                    exprs = [("value", st.value)] if getattr(
+                        st, "value", None) is not None else []
+                else:
+                    exprs = []
+                hoisted = False
+                for fname, e in exprs:
+                    got, _ = find(e, True)
+                    if isinstance(got, ast.Dict):
+                        _DICT_N[0] += 1
+                        tmp = "__dict%d" % _DICT_N[0]
+                        pre = []
+
+                        def _nm(ctx):
+                            return ast.copy_location(
+                                ast.Name(id=tmp, ctx=ctx), got)
+                        v0 = got.values[0]
+                        if isinstance(v0, (ast.Dict, ast.DictComp)) or (
+                                isinstance(v0, ast.Call) and
+                                isinstance(v0.func, ast.Name) and
+                                v0.func.id == "dict"):
+                            first = v0      # already made afresh
+                        else:
+                            first = ast.Call(func=ast.Name(id="dict",
+                                                           ctx=ast.Load()),
+                                             args=[v0], keywords=[])
+                        pre.append(ast.Assign(targets=[_nm(ast.Store())],
+                                              value=first))
+                        for k_, v_ in zip(got.keys[1:], got.values[1:]):
+                            if k_ is None:
+                                pre.append(ast.Expr(value=ast.Call(
+                                    func=ast.Attribute(
+                                        value=_nm(ast.Load()),
+                                        attr="update", ctx=ast.Load()),
+                                    args=[v_], keywords=[])))
+                            else:
+                                pre.append(ast.Assign(
+                                    targets=[ast.Subscript(
+                                        value=_nm(ast.Load()), slice=k_,
+                                        ctx=ast.Store())], value=v_))
+                        for p_ in pre:
+                            ast.copy_location(p_, st)
+                            for x_ in ast.walk(p_):
+                                if not hasattr(x_, "lineno"):
+                                    ast.copy_location(x_, st)
+                        nm = _nm(ast.Load())
+                        if getattr(st, fname) is got:
+                            setattr(st, fname, nm)
+                        elif not replace(e, got, nm):
+                            continue
+                        body[i:i] = pre
+                        hoisted = True
+                        break
+                    if got is None or not isinstance(got.target, ast.Name):
+                        continue
+                    asg = ast.Assign(
+                        targets=[ast.Name(id=got.target.id,
+                                          ctx=ast.Store())],
+                        value=got.value)
+                    ast.copy_location(asg, st)
+                    ast.copy_location(asg.targets[0], got.target)
+                    nm = ast.copy_location(
+                        ast.Name(id=got.target.id, ctx=ast.Load()), got)
+                    if getattr(st, fname) is got:
+                        setattr(st, fname, nm)
+                    elif not replace(e, got, nm):
+                        continue
+                    body.insert(i, asg)
+                    hoisted = True
+                    break
+                if not hoisted:
+                    i += 1
+    ast.fix_missing_locations(tree)
+
+
+_STRUCT_METHODS = ("pack", "unpack", "unpack_from", "pack_into",
+                   "iter_unpack")
+
+
+def _struct_objects(tree):
+    """Source normal form: a name bound once (in the module, or in one
+    function) to ``struct.Struct(<constant format>)`` - or to one of its
+    bound methods - is read through: ``S.unpack_from(b, o)`` and
+    ``u = S.unpack_from; u(b, o)`` read ``struct.unpack_from(F, b, o)``,
+    ``S.size`` reads ``struct.calcsize(F)``.  The binding statements stay
+    (other modules may import a module-level one)."""
+    def struct_call(e):
+        """(format constant node, method or None) if e is
+        struct.Struct(F) / Struct(F) / that .method"""
+        meth = None
+        if isinstance(e, ast.Attribute) and e.attr in _STRUCT_METHODS:
+            meth, e = e.attr, e.value
+        if isinstance(e, ast.Call) and len(e.args) == 1 and \
+                not e.keywords and isinstance(e.args[0], ast.Constant) and \
+                isinstance(e.args[0].value, (str, bytes)):
+            f = e.func
+            if (isinstance(f, ast.Attribute) and f.attr == "Struct" and
+                    isinstance(f.value, ast.Name) and
+                    f.value.id == "struct") or \
+                    (isinstance(f, ast.Name) and f.id == "Struct"):
+                return e.args[0], meth
+        return None
+
+    def scope_nodes(scope):
+        todo = list(scope.body)
+        while todo:
+            n = todo.pop()
+            yield n
+            if isinstance(n, (ast.FunctionDef, ast.AsyncFunctionDef,
+                              ast.ClassDef, ast.Lambda)):
+                continue
+            todo.extend(ast.iter_child_nodes(n))
+
+    def table(scope, inherited):
+        stores = {}
+        for n in scope_nodes(scope):
+            if isinstance(n, ast.Name) and isinstance(n.ctx, (ast.Store,
+                                                               ast.Del)):
+                stores[n.id] = stores.get(n.id, 0) + 1
+            elif isinstance(n, (ast.FunctionDef, ast.AsyncFunctionDef,
+                                ast.ClassDef)):
+                stores[n.name] = stores.get(n.name, 0) + 1
+        if isinstance(scope, (ast.FunctionDef, ast.AsyncFunctionDef,
+                              ast.Lambda)):
+            for a in ast.walk(scope.args):
+                if isinstance(a, ast.arg):
+                    stores[a.arg] = stores.get(a.arg, 0) + 2
+        tab = {k: v for k, v in inherited.items() if k not in stores}
+        for n in scope_nodes(scope):
+            if isinstance(n, ast.Assign) and len(n.targets) == 1 and \
+                    isinstance(n.targets[0], ast.Name) and \
+                    stores.get(n.targets[0].id) == 1:
+                sc = struct_call(n.value)
+                if sc is not None:
+                    tab[n.targets[0].id] = sc
+                elif isinstance(n.value, ast.Attribute) and \
+                        n.value.attr in _STRUCT_METHODS and \
+                        isinstance(n.value.value, ast.Name) and \
+                        n.value.value.id in tab and \
+                        tab[n.value.value.id][1] is None:
+                    tab[n.targets[0].id] = (tab[n.value.value.id][0],
+                                            n.value.attr)
+        return tab
+
+    def mk(meth, fmt, args, keywords, like):
+        new = ast.Call(
+            func=ast.Attribute(value=ast.Name(id="struct", ctx=ast.Load()),
+                               attr=meth, ctx=ast.Load()),
+            args=[ast.Constant(value=fmt.value)] + list(args),
+            keywords=list(keywords))
+        return ast.copy_location(new, like)
+
+    def rewrite(scope, tab):
+        if isinstance(scope, ast.Lambda):
+            return
+        class R(ast.NodeTransformer):
+            def visit_FunctionDef(self, node):
+                return node
+            visit_AsyncFunctionDef = visit_FunctionDef
+            visit_ClassDef = visit_FunctionDef
+            visit_Lambda = visit_FunctionDef
+
+            def visit_Call(self, node):
+                self.generic_visit(node)
+                f = node.func
+                if isinstance(f, ast.Name) and f.id in tab and \
+                        tab[f.id][1] is not None:
+                    return mk(tab[f.id][1], tab[f.id][0], node.args,
+                              node.keywords, node)
+                if isinstance(f, ast.Attribute) and \
+                        f.attr in _STRUCT_METHODS:
+                    if isinstance(f.value, ast.Name) and \
+                            f.value.id in tab and \
+                            tab[f.value.id][1] is None:
+                        return mk(f.attr, tab[f.value.id][0], node.args,
+                                  node.keywords, node)
+                    sc = struct_call(f.value)
+                    if sc is not None and sc[1] is None:
+                        return mk(f.attr, sc[0], node.args, node.keywords,
+                                  node)
+                return node
+
+            def visit_Attribute(self, node):
+                self.generic_visit(node)
+                if node.attr == "size" and isinstance(node.ctx, ast.Load):
+                    fmt = None
+                    if isinstance(node.value, ast.Name) and \
+                            node.value.id in tab and \
+                            tab[node.value.id][1] is None:
+                        fmt = tab[node.value.id][0]
+                    else:
+                        sc = struct_call(node.value)
+                        if sc is not None and sc[1] is None:
+                            fmt = sc[0]
+                    if fmt is not None:
+                        return mk("calcsize", fmt, [], [], node)
+                return node
+        r = R()
+        scope.body = [r.generic_visit(s_) if not isinstance(
+            s_, (ast.FunctionDef, ast.AsyncFunctionDef, ast.ClassDef))
+            else s_ for s_ in scope.body] if False else scope.body
+        for i, s_ in enumerate(list(scope.body)):
+            if isinstance(s_, (ast.FunctionDef, ast.AsyncFunctionDef,
+                               ast.ClassDef)):
+                # decorators / defaults belong to the enclosing scope
+                continue
+            scope.body[i] = r.visit(s_)
+
+    def walk(scope, inherited):
+        tab = table(scope, inherited) if not isinstance(
+            scope, ast.ClassDef) else inherited
+        if tab and not isinstance(scope, ast.ClassDef):
+            rewrite(scope, tab)
+        for n in scope_nodes(scope):
+            if isinstance(n, (ast.FunctionDef, ast.AsyncFunctionDef,
+                              ast.ClassDef)):
+                walk(n, tab)
+    try:
+        walk(tree, {})
+    except RecursionError:
+        pass
+    ast.fix_missing_locations(tree)
+
+
 def _normalise(tree):
     """Source normal forms shared by all rules: ``t = <expr>`` immediately
     followed by ``return t`` (t used nowhere else in the function) reads as
@@ -178,6 +555,9 @@ def _normalise(tree):
                 args=[node.args[0], node.args[1].value] + (
                     [off] if off is not None else []), keywords=[])
             return ast.copy_location(new, node)
+    _split_parallel_assignments(tree)
+    _hoist_walrus(tree)
+    _struct_objects(tree)
     _UnpackSlice().visit(tree)
     ast.fix_missing_locations(tree)
     # ``while True:`` whose first statement is ``if <t>: break`` reads as
@@ -454,6 +834,32 @@ class Program(object):
                             if all(x == "staticmethod" for x in decs):
                                 target = d
                                 method = "staticmethod" not in decs
+                    if target is None and isinstance(c.func, ast.Attribute) \
+                            and not (isinstance(c.func.value, ast.Name) and
+                                     c.func.value.id == "self"):
+                        # a method the reference tree did not have, called
+                        # on another object (packet._unpack_args(...)): not
+                        # followed; reports about this function are withheld
+                        nm_ = c.func.attr
+                        if any(q_.endswith("." + nm_) and q_ not in known
+                               and isinstance(m.defs[q_], ast.FunctionDef)
+                               for q_ in m.defs if q_ != "__dups__") and \
+                                not any(q_ == nm_ or q_.endswith("." + nm_)
+                                        for q_ in known) and \
+                                getattr(host, "name", None) != nm_ and \
+                                not any(
+                                    isinstance(c2, ast.Call) and
+                                    isinstance(c2.func, ast.Attribute) and
+                                    c2.func.attr == nm_ and
+                                    isinstance(c2.func.value, ast.Name) and
+                                    c2.func.value.id == "self"
+                                    for c2 in ast.walk(fn)):
+                            # (not when the same method is also called on
+                            # self - it is followed there - or calls itself)
+                            try:
+                                new_classes.add(ast.unparse(c.func))
+                            except Exception:
+                                new_classes.add(nm_)
                     if target is None or target.name in local_names:
                         continue
                     if any(isinstance(x, (ast.Yield, ast.YieldFrom))
@@ -818,12 +1224,13 @@ class Report(object):
                                      message, node, positive))
 
     def check(self, cond, rule, instance, text, construct=None, node=None,
-              fail=None):
+              fail=None, positive=False):
         if cond:
             self.ok(rule, instance, text, node)
         else:
             self.bad(rule, instance, construct or text,
-                     fail or ("does not hold: " + text), node)
+                     fail or ("does not hold: " + text), node,
+                     positive=positive)
         return bool(cond)
 
     def floor(self, rule, n):
@@ -964,6 +1371,43 @@ def _withhold_rewritten(report, program):
         return
     keep, held = [], {}
     cache = {}
+    # a value that was compared with the expected one and contains a part
+    # the engines do not interpret (an "opaque:" construct, the result of a
+    # "call:" they do not follow): two different normal forms are then not
+    # evidence of two different values
+    import re as _re
+    opaque = []
+    for fd in list(report.findings):
+        # (the length of an uninterpreted input - len(f.read()) - is a
+        # plain unknown quantity, not an unread expression)
+        text_ = _re.sub(r"len\(call:[^()]*\)", "len(_)", fd.construct or "")
+        if not fd.positive and not os.environ.get(
+                "RIGVERIF_NO_OPAQUE_GATE") and _re.search(
+                    r"\b(opaque|call):", text_):
+            opaque.append(fd)
+    if opaque:
+        report.findings = [fd for fd in report.findings
+                           if fd not in opaque]
+        for fd in opaque:
+            if os.environ.get("RIGVERIF_SHOW_WITHHELD"):
+                print("WITHHELD %s %s: %s" % (fd.rule, fd.instance,
+                                              fd.message))
+            for ob in report.obligations:
+                if ob.get("ok") is False and ob["rule"] == fd.rule and \
+                        ob["instance"] == fd.instance and \
+                        ob["fact"] == fd.message:
+                    ob["ok"] = None
+        report.undecided(
+            sorted(set(fd.rule for fd in opaque)),
+            "%d comparison(s) in %s withheld: the value compared contains a "
+            "part the engines do not interpret (%s); different normal "
+            "forms are then no evidence of different values" % (
+                len(opaque), ", ".join(sorted(set(
+                    fd.instance for fd in opaque))),
+                "; ".join(sorted(set(
+                    _re.search(r"\b(?:opaque|call):[^ ,)]*",
+                               fd.construct).group(0)
+                    for fd in opaque))[:3])))
     for fd in report.findings:
         if fd.positive:
             keep.append(fd)
